@@ -220,7 +220,16 @@ fn judge_fin(c: &Case, o: &Obs, fin: u32) -> Option<(String, serde_json::Value)>
   // below finalize the subscriber's terminal is not finalize's: its own subscription ends when
   // a terminal reaches it from above (recorded by the spy; the create source delivers its terminal regardless)
   let term = if c.downstream.is_some() {
-    o.evs.iter().find(|e| e.id / 1000 == SPY && matches!(&e.k, K::N(n) if n.is_terminal())).map(|e| e.seq)
+    let seen_above = o.evs.iter().find(|e| e.id / 1000 == SPY && matches!(&e.k, K::N(n) if n.is_terminal())).map(|e| e.seq);
+    // with nothing between the create source and finalize, the producer's own terminal call is
+    // that event whether or not anything records it on the way (a `create` subscriber hands its
+    // terminal on even when everything below has finished)
+    let called = if c.upstream.is_empty() {
+      c.history.iter().position(|t| matches!(t, Trig::Complete | Trig::Error)).and_then(|i| o.step_seq.get(i).cloned())
+    } else {
+      None
+    };
+    seen_above.or(called)
   } else {
     o.evs.iter().find(|e| e.id == 1 && matches!(&e.k, K::N(n) if n.is_terminal())).map(|e| e.seq)
   };
